@@ -38,6 +38,12 @@ def handle (op : String) (args : List String) : Option Reply :=
       -- the checked variant: `PANIC` if a subtraction site underflows
       okProved (pPanic (pOpt pCS) (s.unionChecked t))
   | "partial_cmp", [s, t] => do let s ← rCS s; let t ← rCS t; okProved (pOrd (s.partialCmp t))
+  -- `<`, `<=`, `>`, `>=`, `==`: the provided methods of `PartialOrd`/`PartialEq`, i.e. derived from `partial_cmp`
+  | "lt", [s, t] => do let s ← rCS s; let t ← rCS t; okProved (pBool (s.partialCmp t == some .lt))
+  | "le", [s, t] => do let s ← rCS s; let t ← rCS t; okProved (pBool (s.partialCmp t == some .lt || s.partialCmp t == some .eq))
+  | "gt", [s, t] => do let s ← rCS s; let t ← rCS t; okProved (pBool (s.partialCmp t == some .gt))
+  | "ge", [s, t] => do let s ← rCS s; let t ← rCS t; okProved (pBool (s.partialCmp t == some .gt || s.partialCmp t == some .eq))
+  | "eq", [s, t] => do let s ← rCS s; let t ← rCS t; okProved (pBool (s == t))
   | _, _ => none
 
 end Driver.FamCharSet
